@@ -49,6 +49,28 @@ def classify_lines(text, lang, markers=("*INDENT-OFF*", "*INDENT-ON*")):
             regions.append((i, (j if j >= 0 else len(text)) + len(b)))
             i = low.find(a, (j if j >= 0 else len(text)) + 1) if j >= 0 else -1
 
+    # multi-line '[[ ... ]]' attributes: uncrustify keeps their text as it is
+    attrs = []
+    toks = [it for it in items if it[0] == "tok"]
+    k = 0
+    while k + 1 < len(toks):
+        if toks[k][1] == "[" and toks[k + 1][1] == "[" and toks[k][3] == toks[k + 1][2]:
+            d = 0
+            j = k
+            while j < len(toks):
+                if toks[j][1] == "[":
+                    d += 1
+                elif toks[j][1] == "]":
+                    d -= 1
+                    if d == 0:
+                        break
+                j += 1
+            if j < len(toks) and toks[j][4] != toks[k][4]:
+                attrs.append((toks[k][2], toks[j][3]))
+            k = j + 1
+        else:
+            k += 1
+
     def inside(pos, rngs):
         for r in rngs:
             if r[0] < pos < r[1]:
@@ -102,6 +124,10 @@ def classify_lines(text, lang, markers=("*INDENT-OFF*", "*INDENT-ON*")):
                     kk = k2
                     break
             trail = kk is None and cls != "region"
+        if cls in ("code", "cmtstart") and (inside(start, attrs) or inside(end, attrs) or any(a <= start <= b for a, b in attrs)):
+            cls = "attr"
+        if cls == "pp" and any(s_ == start + leadlen and k_ == "cmt" for s_, e_, k_ in spans):
+            cls = "ppcmt"
         out.append((no, lead, cls, trail))
     return out
 
@@ -243,6 +269,11 @@ def blind(text, lang):
         return True
     if lang == "CS" and ('$@"' in text or '@$"' in text):
         return True
+    import re as _re
+    if _re.search(r'R"[^()\s"]*"\(', text):      # 'R"FOO"(' : not a raw string of the language (cpp/strings.cpp)
+        return True
+    if _re.search(r"#\s*ifdef\s+asm\b", text):   # c/i1270.c: the tokenizer switches processing off at '#ifdef asm'
+        return True
     return False
 
 
@@ -325,6 +356,11 @@ def run(ctx):
                 parts = jid.split("|")
                 sig = "%s|%s" % (b, jid)
                 lines = sorted(rep.get("lines", []))[:5]
+                classes = {ln["cls"] for ln in e["lines"] if ln["no"] in set(rep.get("lines", []))}
+                if classes == {"attr"}:
+                    sig = "%s|inside-multi-line-attribute" % b
+                elif classes == {"ppcmt"}:
+                    sig = "%s|comment-line-in-directive" % b
                 ctx.violation(sig, "%s violated for %s at output line(s) %s" % (b, jid, lines),
                               {"kind": "c17", "which": b, "src": src, "lang": lang, "cfg_text": cfg_text, "lines": lines,
                                "src_bytes": open(src, "rb").read()[:200000]})
